@@ -7,8 +7,9 @@
 (*   SetByte(o, V)   - every value of V at offset o; V is the full byte    *)
 (*                     range for structural fields (segment lengths, frame *)
 (*                     / scan / SIZ / COD / QCD / SOT bodies, table ids)   *)
-(*                     and a boundary set elsewhere (Full = TRUE: always   *)
-(*                     the full range)                                      *)
+(*                     and a boundary set elsewhere (Full = TRUE: the full *)
+(*                     range for every header byte, 26 boundary values for *)
+(*                     every byte of the entropy-coded data)               *)
 (*   Shift(D) (JPEG 2000: image and tile grid moved by D on the reference  *)
 (*   grid, declared size unchanged),                                       *)
 (*   Truncate(n), RandomTail(n), SetTwo(o1, o2), FrameInfo(i) (codec-level *)
@@ -77,7 +78,7 @@ Next ==
             ELSE o' = he /\ phase' = "body" /\ UNCHANGED t
        [] phase = "body" ->
             IF o <= e.len
-            THEN /\ Line([t |-> t, k |-> "set", o |-> o - 1, v |-> IF Full THEN <<>> ELSE <<0, 1, 127, 128, 143, 144, 254, 255>>])
+            THEN /\ Line([t |-> t, k |-> "set", o |-> o - 1, v |-> IF Full THEN SetToSeq(Boundary) ELSE <<0, 1, 127, 128, 143, 144, 254, 255>>])
                  /\ Line([t |-> t, k |-> "trunc", o |-> o - 1])
                  /\ (o % 3 = 0 => Line([t |-> t, k |-> "tail", o |-> o - 1, seed |-> t * 1000 + o]))
                  /\ (o % 2 = 0 => Line([t |-> t, k |-> "set2", o |-> (o * 7) % he, o2 |-> o - 1, seed |-> t * 977 + o]))
